@@ -652,8 +652,10 @@ func sameSignature(a, b string, keepOptional bool) bool {
 			return false
 		}
 		if ca != "" && cb != "" && ca != cb {
-			// "len" of something unnamed on one side, "len x" on the other: the same kind of quantity
-			if (ca == "len" && strings.HasPrefix(cb, "len_")) || (cb == "len" && strings.HasPrefix(ca, "len_")) {
+			// "len" of something unnamed in the reference, "len x" now: the same kind of quantity
+			// (only in this direction: the reference names nothing, the current code names what it
+			// measures; a reference that names a field is not satisfied by the length of something else)
+			if cb == "len" && strings.HasPrefix(ca, "len_") {
 				continue
 			}
 			// a carried field is identified by its name; the struct that holds it may change
